@@ -162,6 +162,17 @@ def item_v4_flag_consts(repo, out):
     if not (len(aug) == 1 and isinstance(aug[0].op, ast.BitOr) and _norm(aug[0].target) == 'flags[slices]'
             and isinstance(aug[0].value, ast.Name)):
         raise TranslateError('%s: _apply_data_lost does not do exactly one `flags[slices] |= <NAME>`' % rel)
+    # (round 3) the constant enters the flags nowhere else: one use of the name in the whole function (so no
+    # `orig_flags | <NAME>` on a path that bypasses the slices of the lost map), and the sliced array is a local
+    uses = [n for n in ast.walk(fns[0]) if isinstance(n, ast.Name) and n.id == aug[0].value.id]
+    if len(uses) != 1:
+        raise TranslateError('%s: _apply_data_lost uses %s %d times, not only in `flags[slices] |= %s`'
+                             % (rel, aug[0].value.id, len(uses), aug[0].value.id))
+    others = [n for n in ast.walk(fns[0]) if isinstance(n, ast.BinOp) and isinstance(n.op, (ast.BitOr, ast.Add))
+              or isinstance(n, ast.AugAssign) and n is not aug[0]]
+    if others:
+        raise TranslateError('%s: _apply_data_lost combines flags in another way than the one `flags[slices] |= %s`: %s'
+                             % (rel, aug[0].value.id, ast.unparse(others[0])[:60]))
     lost = _flags_import(tree, aug[0].value.id, rel)
     cls = _class(tree, 'ChunkStoreVisFlagsWeights', rel)
     init = _func(cls, '__init__', rel)
@@ -540,6 +551,7 @@ def item_h5_flag_transform(repo, out):
         res.append((fmt, 'bool(and(mask,stored))'))
     out.append('Definition h5_flag_transform : list (string * string) := [%s].'
                % '; '.join('(%s, %s)' % (coq_string(k), coq_string(v)) for k, v in res))
+
 
 
 ITEMS = [item_v4_indexers, item_v4_flag_consts, item_ds_set_keep, item_ds_select_keeps, item_concat_set_keep,
